@@ -6,7 +6,11 @@ Line-protocol drivers + implementation-output checkers for C12.
 * `mkraccapp` — app stream through the real marker `MsgServer`:
                 `probe op=<Name> acc=<a+b|-> mgr= gov= st= ty= ft= gc= ctl= dest= circ=`
                 `xsetup acc= st= ty= ft= src=<kind> grant=<coins;allow|-> bal=<n>` followed by
-                `xfer amt=<n> to=<P1|P2|P3|RD|RN|BL>` lines (one authz grant, many transfers).
+                `xfer amt=<n> to=<P1|P2|P3|RD|RN|BL>` lines (one authz grant, many transfers);
+                `smk` / `sadd` / `sdel` / `smint` / `sburn` / `swd`: a marker created with
+                MsgAddFinalizeActivateMarker and then driven by real messages of named accounts.
+                Optional `rec=<recorded supply> cbal=<caller balance> sup=<coins in existence>`
+                on a `probe` line replace the `ctl` flag by what `accountControlsAllSupply` computes.
 -/
 import PvModel.MkraccSpec
 -- registry: mkracc PvModel.Mkracc.driver
@@ -119,6 +123,18 @@ def parseCfg? (ws : List String) : Option Cfg := do
   pure { acc := acc, mgr := ← b "mgr", gov := ← b "gov", status := st, mtype := ty,
          forced := ← b "ft", govCtl := ← b "gc", ctlSupply := ← b "ctl" }
 
+/-- `(recorded supply, caller balance, coins in existence)` of a probe line; `ctl=1` without
+them means the caller holds the whole recorded and existing supply of 1000. -/
+def parseSupplyView (ws : List String) (ctl : Bool) : Int × Int × Int :=
+  match (kv ws "rec") >>= parseInt?, (kv ws "cbal") >>= parseInt?, (kv ws "sup") >>= parseInt? with
+  | some r, some b, some s => (r, b, s)
+  | _, _, _ => if ctl then (1000, 1000, 1000) else (1000, 0, 1000)
+
+/-- the configuration with the whole-supply credential as DOCUMENTED (holds every existing
+coin, and there are some) instead of as computed by `accountControlsAllSupply` -/
+def honestCfg (c : Cfg) (callerBal circulating : Int) : Cfg :=
+  { c with ctlSupply := Spec.holdsWholeSupply callerBal circulating }
+
 /-- kinds of source account the harness sets up -/
 def parseSrc? : String → Option (Bool × Acct)
   | "self" => some (true, { isGroup := false, present := true, seqNonZero := true, isMarker := false, isMarket := false })
@@ -145,16 +161,20 @@ structure AState where
   bal : Int := 0
   movedImpl : Coins := []
   nAcc : Nat := 0
+  mkr : MState := {}
 
 /-- The property's conclusion for one operation the implementation accepted. -/
-def probeVerdict (op : Op) (c : Cfg) (impl : String) : String :=
+def probeVerdict (op : Op) (c honest : Cfg) (impl : String) : String :=
   let ws := words impl
   if ws.headD "" != "ok" then "ok"
   else if Spec.noop op c then
     (if kv ws "changed" == some "1" then "fail:cancel_noop_changed_state" else "ok")
   else if !Spec.available op c then s!"fail:{op.name}_in_undocumented_status_or_type"
-  else if !Spec.authorised op c then s!"fail:{op.name}_without_right"
-  else "ok"
+  else if Spec.authorised op honest then "ok"
+  -- the only credential is `accountControlsAllSupply` answering yes for a caller who does
+  -- not hold the coins in existence (recorded supply 0 or stale)
+  else if Spec.authorised op c then "fail:access_change_by_vacuous_supply_control"
+  else s!"fail:{op.name}_without_right"
 
 /-- The property's conclusion for one transfer the implementation accepted, against the
 ORIGINAL grant and the transfers that used it before. -/
@@ -165,25 +185,60 @@ def xferVerdict (s : AState) (c : Cfg) (u : Use) (dest : Dest) : String :=
   else if dest == .blocked then "fail:transfer_to_blocked_recipient"
   else if s.selfFrom then "ok"
   else if c.forced && c.has .forceTransfer && !Spec.moduleOrContractLike s.src then "ok"
-  else match s.g0 with
-    | none =>
-      if c.forced && c.has .forceTransfer then "fail:forced_from_module_or_contract"
-      else if c.has .forceTransfer then "fail:forced_on_marker_that_disallows_it"
-      else "fail:transfer_without_grant"
-    | some g0 => useVerdict g0 s.movedImpl s.nAcc u
+  else
+    -- only the source account's own grant (as originally given) can justify this transfer
+    let byGrant := match s.g0 with
+      | none => "none"
+      | some g0 => useVerdict g0 s.movedImpl s.nAcc u
+    if byGrant == "ok" then "ok"
+    else if c.forced && c.has .forceTransfer then "fail:forced_from_module_or_contract"
+    else if byGrant == "none" then
+      (if c.has .forceTransfer then "fail:forced_on_marker_that_disallows_it" else "fail:transfer_without_grant")
+    else byGrant
+
+private def insertSortedBy {α} (lt : α → α → Bool) (x : α) : List α → List α
+  | [] => [x]
+  | y :: ys => if lt x y then x :: y :: ys else y :: insertSortedBy lt x ys
+
+/-- canonical rendering of the marker after a successful message -/
+def showMState (m : MState) : String :=
+  let rs := m.rights.foldl (fun acc r => insertSortedBy (fun (a b : String × List Access) => a.1 < b.1) r acc) []
+  let acl := rs.map fun r => s!"{r.1}:{if r.2.isEmpty then "-" else "+".intercalate (r.2.map Access.toString)}"
+  s!"rec={m.record} esc={m.escrow} sup={m.circulating} acl={if acl.isEmpty then "-" else "|".intercalate acl}"
+
+/-- scenario op, its caller, and the `Op` whose credentials the checker looks at -/
+def parseSOp? (w : String) (ws : List String) : Option (SOp × String × Option Op) :=
+  match w with
+  | "smk" => do
+    let amt ← (kv ws "amt") >>= parseInt?
+    let fixed ← (kv ws "fixed") >>= parseBool?
+    let ty ← (kv ws "ty") >>= MType.ofString?
+    let acc ← (kv ws "acc") >>= parseAccess?
+    pure (.create amt fixed ty acc, "A", none)
+  | "sadd" => do
+    let rights ← (kv ws "rights") >>= parseAccess?
+    pure (.add (← kv ws "by") (← kv ws "to") rights, ← kv ws "by", some .addAccess)
+  | "sdel" => do pure (.del (← kv ws "by") (← kv ws "who"), ← kv ws "by", some .deleteAccess)
+  | "smint" => do pure (.mint (← kv ws "by") (← (kv ws "amt") >>= parseInt?), ← kv ws "by", some .mint)
+  | "sburn" => do pure (.burn (← kv ws "by") (← (kv ws "amt") >>= parseInt?), ← kv ws "by", some .burn)
+  | "swd" => do
+    pure (.withdraw (← kv ws "by") (← kv ws "to") (← (kv ws "amt") >>= parseInt?), ← kv ws "by", some .withdraw)
+  | _ => none
 
 def appStep (s : AState) (ws : List String) (impl : Option String) : AState × String × String :=
   match ws with
   | "probe" :: rest =>
     match (kv rest "op") >>= Op.ofString?, parseCfg? rest with
-    | some op, some c =>
+    | some op, some c0 =>
+      let (rec, cbal, sup) := parseSupplyView rest c0.ctlSupply
+      let c := { c0 with ctlSupply := accountControlsAllSupply cbal rec sup }
       let e : Env := { dest := ((kv rest "dest") >>= Dest.ofString?).getD .plain,
                        circ := ((kv rest "circ") >>= parseBool?).getD false }
       let out := match runOp op c e with
         | .ok () => s!"ok changed={boolStr (op != .cancel || cancelChangesState c)}"
         | .error err => err.toString
       let v := match impl with
-        | some i => probeVerdict op c i
+        | some i => probeVerdict op c (honestCfg c cbal sup) i
         | none => "-"
       (s, out, v)
     | _, _ => (s, "bad-op", "-")
@@ -215,6 +270,21 @@ def appStep (s : AState) (ws : List String) (impl : Option String) : AState × S
                           nAcc := if used then s.nAcc + 1 else s.nAcc }
       (s2, out, v)
     | _, _, _ => (s, "bad-op", "-")
+  | w :: rest =>
+    match parseSOp? w rest with
+    | none => (s, "bad-op", "-")
+    | some (sop, by_, mop) =>
+      let r := scenStep s.mkr sop
+      let (mk', out) : MState × String := match r with
+        | .ok m' => (m', "ok " ++ showMState m')
+        | .error e => (s.mkr, e.toString)
+      let v := match impl, mop with
+        | some i, some op =>
+          let c := s.mkr.cfg by_
+          probeVerdict op c (honestCfg c (s.mkr.balOf by_) s.mkr.circulating) i
+        | some _, none => "-"
+        | none, _ => "-"
+      ({ s with mkr := mk' }, out, v)
   | _ => (s, "bad-op", "-")
 
 def appDriver : Driver where
